@@ -73,7 +73,7 @@ PROPS = {
              'helpers and every union path ends in a checked advance or return false; message::decode returns '
              'success && bytes_read == size and all overloads funnel through it.',
              'absence of all undefined behaviour; equality of re-encoded length',
-             'guard-dominance over clang AST statement trees, generator template tokenisation, who-may-call'),
+             'guard-dominance over clang AST statement trees, generator template tokenisation, who-may-call', claimed=True),
     'C08': P('Raw C++ struct layout equals wire layout',
              'PROPHY_STRUCT is aligned+packed; every wire gap enumerated from the model (member padding, optional '
              'flag-to-value gap, union discriminator gap, part alignment) has an emitting construct in cpp.py guarded by the '
